@@ -32,7 +32,9 @@ class AbstractSMCSampler(object):
     def sample(self):
         self._init_swarm()
 
-        self._resample_swarm()
+        # Nothing left to propagate when the first generation is also the last one (single data point)
+        if self.iteration < self.num_iterations:
+            self._resample_swarm()
 
         while self.iteration < self.num_iterations:
             self._update_swarm()
